@@ -218,6 +218,15 @@ impl Ctx {
             let mut viols = Vec::new();
             let r = self.guarded(|stats| exec(&case, stats, &mut viols));
             if let Err(msg) = r {
+                if msg.contains(crate::pool::RESOURCE_MARK) {
+                    // the host could not provide a resource (threads): not a verdict on the library
+                    self.stats.count("resource_failures", 1);
+                    if self.stats.notes.len() < 4 {
+                        self.stats.notes.push(format!("case {}: {}", idx, msg));
+                    }
+                    viols.clear();
+                    continue;
+                }
                 let loc = msg.rsplit(" @ ").next().unwrap_or("").to_string();
                 viols.push(Viol::new("panic", msg).sig(json!({ "location": loc })));
             }
@@ -258,6 +267,10 @@ impl Ctx {
         m.insert("notes".into(), json!(self.stats.notes));
         m.insert("complete".into(), json!(true));
         let s = serde_json::to_string(&Value::Object(m)).unwrap();
+        if let Some(n) = self.stats.counters.get("resource_failures") {
+            // read by ./check: the shard is inconclusive
+            println!("INCONCLUSIVE {} cases could not run for lack of host resources (thread creation): {:?}", n, self.stats.notes.first());
+        }
         if self.out.as_os_str() == "/dev/null" {
             println!("{}", s);
         } else {
